@@ -330,6 +330,9 @@ func (v *visitor) SliceNode(node *ast.SliceNode) reflect.Type {
 		// Slicing an array yields a slice of its element type.
 		if d := dereference(t); d != nil && d.Kind() == reflect.Array {
 			return reflect.SliceOf(d.Elem())
+		} else if d != nil && t.Kind() == reflect.Ptr {
+			// Slicing through a pointer yields a value of the pointed-to type.
+			return d
 		}
 		return t
 	}
